@@ -67,7 +67,7 @@ sim::Json GenOpts::to_json() const {
     j["allow_msw"] = allow_msw; j["allow_history"] = allow_history; j["allow_groups"] = allow_groups;
     j["restart_safe_conditions"] = restart_safe_conditions; j["nonmidnight"] = nonmidnight; j["step_events"] = step_events;
     j["action_inline_safe"] = action_inline_safe; j["vector_target"] = vector_target; j["units"] = units;
-    j["fmtout"] = fmtout; j["unifout"] = unifout; j["esmry"] = esmry; j["rptonly"] = rptonly; j["sumthin"] = sumthin; j["date_conditions"] = date_conditions; j["nested_parens"] = nested_parens; j["stop_safe"] = stop_safe; j["weltarg_safe"] = weltarg_safe; j["cond_well_bias"] = cond_well_bias; j["min_wells"] = min_wells; j["reparent_groups"] = reparent_groups; j["late_edits"] = late_edits; j["geo_kws"] = geo_kws; j["family_snippets"] = family_snippets; j["family_static_free"] = family_static_free; j["tuning_vfp"] = tuning_vfp; j["udq_unary_minus"] = udq_unary_minus; if (per_step_kws) j["per_step_kws"] = true;
+    j["fmtout"] = fmtout; j["unifout"] = unifout; j["esmry"] = esmry; j["rptonly"] = rptonly; j["sumthin"] = sumthin; j["date_conditions"] = date_conditions; j["nested_parens"] = nested_parens; j["stop_safe"] = stop_safe; j["weltarg_safe"] = weltarg_safe; j["cond_well_bias"] = cond_well_bias; j["min_wells"] = min_wells; j["reparent_groups"] = reparent_groups; j["late_edits"] = late_edits; j["geo_kws"] = geo_kws; j["family_snippets"] = family_snippets; j["family_static_free"] = family_static_free; j["tuning_vfp"] = tuning_vfp; j["udq_unary_minus"] = udq_unary_minus; if (per_step_kws) j["per_step_kws"] = true; if (frac_dates) j["frac_dates"] = true; if (wecon_full) j["wecon_full"] = true;
     return j;
 }
 GenOpts GenOpts::from_json(const Json& j0) {
@@ -82,7 +82,7 @@ GenOpts GenOpts::from_json(const Json& j0) {
     o.step_events = j.getb("step_events", o.step_events); o.action_inline_safe = j.getb("action_inline_safe", o.action_inline_safe);
     o.vector_target = static_cast<int>(j.geti("vector_target", 0)); o.units = j.gets("units", "");
     o.fmtout = static_cast<int>(j.geti("fmtout", -1)); o.unifout = static_cast<int>(j.geti("unifout", -1)); o.esmry = j.getb("esmry", false);
-    o.rptonly = j.getb("rptonly", false); o.sumthin = j.getb("sumthin", false); o.date_conditions = j.getb("date_conditions", o.date_conditions); o.nested_parens = j.getb("nested_parens", o.nested_parens); o.stop_safe = j.getb("stop_safe", o.stop_safe); o.cond_well_bias = j.getd("cond_well_bias", 0.0); o.min_wells = static_cast<int>(j.geti("min_wells", 1)); o.reparent_groups = j.getb("reparent_groups", false); o.late_edits = j.getb("late_edits", false); o.geo_kws = j.getb("geo_kws", false); o.family_snippets = j.getb("family_snippets", false); o.family_static_free = j.getb("family_static_free", false); o.tuning_vfp = j.getb("tuning_vfp", false); o.udq_unary_minus = j.getb("udq_unary_minus", false); o.weltarg_safe = j.getb("weltarg_safe", false); o.per_step_kws = j.getb("per_step_kws", false);  // absent in replay files written before the knob existed
+    o.rptonly = j.getb("rptonly", false); o.sumthin = j.getb("sumthin", false); o.date_conditions = j.getb("date_conditions", o.date_conditions); o.nested_parens = j.getb("nested_parens", o.nested_parens); o.stop_safe = j.getb("stop_safe", o.stop_safe); o.cond_well_bias = j.getd("cond_well_bias", 0.0); o.min_wells = static_cast<int>(j.geti("min_wells", 1)); o.reparent_groups = j.getb("reparent_groups", false); o.late_edits = j.getb("late_edits", false); o.geo_kws = j.getb("geo_kws", false); o.family_snippets = j.getb("family_snippets", false); o.family_static_free = j.getb("family_static_free", false); o.tuning_vfp = j.getb("tuning_vfp", false); o.udq_unary_minus = j.getb("udq_unary_minus", false); o.weltarg_safe = j.getb("weltarg_safe", false); o.per_step_kws = j.getb("per_step_kws", false); o.frac_dates = j.getb("frac_dates", false); o.wecon_full = j.getb("wecon_full", false);  // absent in replay files written before the knob existed
     return o;
 }
 
@@ -184,6 +184,11 @@ struct Gen {
         else if (u < 0.96) { c.lhs = "MNTH"; c.rhs = rng.chance(0.5) ? month_name(static_cast<int>(rng.range(1, 12))) : num(static_cast<double>(rng.range(1, 12))); }
         else { c.lhs = "YEAR"; c.rhs = num(static_cast<double>(m.sy + rng.range(0, 1))); }
         if (c.lhs == "MNTH" && (c.op == "=" || c.op == "!=") && rng.chance(0.5)) c.op = ">=";
+        if (o.frac_dates && (c.lhs == "DAY" || c.lhs == "YEAR" || (c.lhs == "MNTH" && std::isdigit(static_cast<unsigned char>(c.rhs[0])))) && rng.chance(0.5)) {
+            // only MNTH rounds a numeric right-hand side to the nearest month; DAY and YEAR compare as written
+            static const double fr[] = {0.5, 0.25, 0.75, -0.5, -0.25, 0.3};
+            c.rhs = num(std::atof(c.rhs.c_str()) + fr[rng.below(6)]);
+        }
         return c;
     }
 
@@ -280,6 +285,18 @@ struct Gen {
         return k;
     }
 
+    std::vector<std::string> wecon_rec(const std::string& wname) {
+        std::vector<std::string> r = {q(wname), num(std::round(rng.real(1, 50))), "1*", num(std::round(rng.real(0.5, 0.95) * 100) / 100), "2*", q("WELL")};
+        if (o.wecon_full && rng.chance(0.6)) {
+            static const char* wo[] = {"WELL", "CON", "NONE", "+CON"};
+            if (rng.chance(0.6)) r[2] = num(std::round(rng.real(1, 500)));
+            r[4] = rng.chance(0.7) ? num(std::round(rng.real(2, 60) * 10) / 10) : std::string("1*");
+            r.insert(r.begin() + 5, rng.chance(0.7) ? num(std::round(rng.real(0.001, 0.2) * 1000) / 1000) : std::string("1*"));
+            r[6] = q(wo[rng.below(4)]);
+        }
+        return r;
+    }
+
     Kw body_kw(bool inline_safe) {
         Kw k;
         auto wn = [&]() { return rng.chance(0.6) ? std::string("?") : m.wells[rng.below(m.wells.size())].name; };
@@ -294,7 +311,13 @@ struct Gen {
             const WellDef& w = m.wells[rng.below(m.wells.size())];
             const bool named = rng.chance(0.5);
             const std::string kk = std::to_string(static_cast<int>(rng.range(w.k1, w.k2)));
-            if (rng.chance(0.5)) {
+            if (rng.chance(0.3)) {
+                // COMPDAT re-specification of existing connections from an action: the whole column (all connections shut -> automatic
+                // shut-in at the end of the application) or one layer
+                const double diam = m.units == "FIELD" ? 0.5 : m.units == "LAB" ? 10 : 0.2;
+                const bool all = rng.chance(0.6); const std::string st = rng.chance(0.65) ? "SHUT" : "OPEN";
+                k.name = "COMPDAT"; k.recs.push_back({q(w.name), std::to_string(w.i), std::to_string(w.j), all ? std::to_string(w.k1) : kk, all ? std::to_string(w.k2) : kk, q(st), "2*", num(diam), "1*", num(std::round(rng.real(0, 4) * 4) / 4)});
+            } else if (rng.chance(0.5)) {
                 static const char* f[] = {"0.25", "0.5", "2", "4"};
                 k.name = "WPIMULT"; const int nr = rng.chance(0.25) ? 2 : 1;
                 for (int r2 = 0; r2 < nr; ++r2) { k.recs.push_back({q(named ? w.name : std::string("?")), f[rng.below(4)]}); if (named && rng.chance(0.3)) { k.recs.back().push_back("2*"); k.recs.back().push_back(kk); } }
@@ -309,7 +332,7 @@ struct Gen {
         if (u < 0.35) { k.name = "WELOPEN"; static const char* st[] = {"SHUT", "OPEN", "STOP", "SHUT"}; k.recs.push_back({q(wn()), q(st[rng.below(4)])}); }
         else if (u < 0.55) { k.name = "WEFAC"; k.recs.push_back({q(wn()), num(efac())}); }
         else if (u < 0.70 && !prods.empty()) { k.name = "WELTARG"; static const char* md[] = {"ORAT", "LRAT", "BHP", "WRAT"}; std::string mo = md[rng.below(4)]; k.recs.push_back({q(prods[rng.below(prods.size())]), q(mo), num(mo == "BHP" ? bhp_lim(false) : rate())}); }
-        else if (u < 0.76) { k.name = "WECON"; k.recs.push_back({q(wn()), num(std::round(rng.real(1, 50))), "1*", num(std::round(rng.real(0.5, 0.95) * 100) / 100), "2*", q("WELL")}); }
+        else if (u < 0.76) { k.name = "WECON"; k.recs.push_back(wecon_rec(wn())); }
         else if (u < 0.82) { k.name = "WTEST"; k.recs.push_back({q(wn()), num(static_cast<double>(rng.range(1, 30))), q("PE")}); }
         else if (u < 0.92 && !prods.empty()) {
             for (auto& w : m.wells) if (w.name == prods[rng.below(prods.size())]) { k = wcon(w, "OPEN"); break; }
@@ -483,7 +506,7 @@ struct Gen {
                         for (int r2 = 0; r2 < nrec; ++r2) k.recs.push_back({q(w.name), std::to_string(static_cast<int>(rng.range(2, nseg))), num(std::round(rng.real(0.4, 0.95) * 100) / 100), num(0.785 * diam * diam * std::round(rng.real(0.1, 0.9) * 16) / 16)}); }
                     else if (v < 0.75) { k.name = "COMPDAT"; const int kk = static_cast<int>(rng.range(w.k1, w.k2)); k.recs.push_back({q(w.name), std::to_string(w.i), std::to_string(w.j), std::to_string(kk), std::to_string(kk), q(rng.chance(0.8) || o.stop_safe ? "OPEN" : "SHUT"), "2*", num(diam * (rng.chance(0.5) ? 1.0 : 1.5)), "1*", num(std::round(rng.real(0, 4) * 4) / 4)}); }
                     else if (v < 0.82 && w.kind != "OPROD") { WellDef sw = w; sw.history = false; sw.kind = "OPROD"; k = wcon(sw, "OPEN"); }     // an injector becomes a producer (not the other way round: WELTARG ORAT/LRAT records elsewhere in the deck name producers)
-                    else if (v < 0.88 && w.kind == "OPROD") { k.name = "WECON"; k.recs.push_back({q(w.name), num(std::round(rng.real(1, 50))), "1*", num(std::round(rng.real(0.5, 0.95) * 100) / 100), "2*", q("WELL")}); }
+                    else if (v < 0.88 && w.kind == "OPROD") { k.name = "WECON"; k.recs.push_back(wecon_rec(w.name)); }
                     else { k.name = "WTEST"; k.recs.push_back({q(w.name), num(static_cast<double>(rng.range(1, 30))), q("PE")}); }
                 }
                 else if (o.per_step_kws && rng.chance(0.25)) { k.name = "WELOPEN"; k.recs.push_back({q(w.name), q(rng.chance(0.7) ? "SHUT" : "OPEN"), "0", "0", rng.chance(0.6) ? std::string("0") : std::to_string(static_cast<int>(rng.range(w.k1, w.k2))), "2*"}); }
